@@ -6,7 +6,8 @@
 From Coq Require Import ZArith NArith String List Bool.
 From CB Require Import Common.IntN Wasm.Syntax Gen.Limits Wasm.Validate Wasm.ValidateLimits
   Wasm.Typing Wasm.ValidateProofs Wasm.ValidateComplete Wasm.Sem Wasm.TypeSound Wasm.Accepted
-  Wasm.C09Examples Wasm.Leb128 Wasm.Leb128Proofs Wasm.Leb128Signed Wasm.Imports.
+  Wasm.C09Examples Wasm.Leb128 Wasm.Leb128Proofs Wasm.Leb128Signed Wasm.Imports
+  Wasm.Parse Wasm.ParseProofs Wasm.ParseDecode.
 Import ListNotations.
 
 (** Validation is a total function: structural recursion over the opcode list, no fuel. *)
@@ -151,6 +152,72 @@ Theorem artifact_memory_bounded :
      MAX_NUM_PAGES * PAGE_SIZE < 2 ^ 32)%N.
 Proof. exact artifact_memory_bounded_thm. Qed.
 Print Assumptions artifact_memory_bounded.
+
+(** ** The parser (model of parse.rs: skeleton, all sections, opcode decoder, constant
+    expressions; tied to the implementation on the byte-level mutant stream). *)
+
+(** [parse_total]: parsing is a total function of the byte string; the fuel that bounds the
+    vector and opcode loops (remaining input length + 1) is never exhausted. *)
+Theorem parse_total :
+  forall cfg bs, parse_module cfg bs <> PFuel /\ parse_skeleton bs <> PFuel.
+Proof. exact parse_total_thm. Qed.
+Print Assumptions parse_total.
+
+(** [parse_alloc_bounded]: the ghost allocation counter (pre-reservation
+    min(declared, MAX_PREALLOCATED_BYTES / size) per vector + one element per parsed item + names)
+    is linear in the input length: c0 = 0, c1 = 14 * (MAX_PREALLOCATED_BYTES + 64). *)
+Theorem parse_alloc_bounded :
+  forall cfg bs p r a, parse_module cfg bs = POk p r a ->
+    (a <= 14 * (MAX_PREALLOCATED_BYTES + esz_max) * N.of_nat (length bs))%N.
+Proof. exact parse_alloc_bounded_thm. Qed.
+Print Assumptions parse_alloc_bounded.
+(** whatever length a vector declares, its up-front reservation is at most MAX_PREALLOCATED_BYTES *)
+Theorem parse_prealloc_bounded :
+  forall esize declared, (prealloc esize declared <= MAX_PREALLOCATED_BYTES)%N.
+Proof. exact prealloc_le. Qed.
+Print Assumptions parse_prealloc_bounded.
+
+(** [parse_sections_ordered]: an accepted skeleton has strictly increasing non-custom section ids
+    (no reordering, no duplicates), all in 1..11. *)
+Theorem parse_sections_ordered :
+  forall bs ss r a, parse_skeleton bs = POk ss r a ->
+    Sorted.StronglySorted N.lt (noncustom_ids ss) /\ Forall (fun i => 0 < i <= 11)%N (noncustom_ids ss).
+Proof. exact parse_sections_ordered_thm. Qed.
+Print Assumptions parse_sections_ordered.
+
+(** the decoded module [corresponds] to what the validator saw, and an accepted module decodes *)
+Theorem parse_decode_corresponds :
+  forall cap p vm m, to_vmodule cap p = Some vm -> decode_module cap p = Some m -> corresponds vm m.
+Proof. exact decode_corresponds. Qed.
+Print Assumptions parse_decode_corresponds.
+Theorem accepted_bytes_decode :
+  forall cfg bs p r a vm, parse_module cfg bs = POk p r a ->
+    to_vmodule (N.of_nat (length bs)) p = Some vm ->
+    validate_module (cfg_signext cfg) vm = true -> no_trailing (cfg_signext cfg) vm ->
+    exists m, decode_module (N.of_nat (length bs)) p = Some m.
+Proof. exact accepted_decodes. Qed.
+Print Assumptions accepted_bytes_decode.
+
+(** [accepted_bytes_never_stuck]: from bytes to safe execution on the reference semantics -
+    parse (model of parse.rs), validate (model of validate.rs), decode, run. *)
+Theorem accepted_bytes_never_stuck :
+  forall cfg bs p r a vm m host page_cap fuel fi args ft,
+    parse_module cfg bs = POk p r a ->
+    to_vmodule (N.of_nat (length bs)) p = Some vm ->
+    validate_module (cfg_signext cfg) vm = true -> no_trailing (cfg_signext cfg) vm ->
+    decode_module (N.of_nat (length bs)) p = Some m ->
+    host_ok host m ->
+    nth_error (ftypes m) fi = Some ft -> map type_of_val args = ft_params ft ->
+    run host page_cap m fuel fi args <> Stuck.
+Proof. exact accepted_bytes_never_stuck_thm. Qed.
+Print Assumptions accepted_bytes_never_stuck.
+
+Example parse_hypotheses_satisfiable :
+  accepts cfg_v1 bytes_ex = true /\ accepts cfg_v0 bytes_ex = true /\
+  (exists ss r a, parse_skeleton bytes_ex = POk ss r a /\ noncustom_ids ss = [1; 3; 7; 10]%N) /\
+  accepts cfg_v1 (bytes_ex ++ [0x03; 0x02; 0x01; 0x00]%N) = false.
+Proof. exact parse_example. Qed.
+Print Assumptions parse_hypotheses_satisfiable.
 
 (** Permitted imports and exports (transcription of the v0 / v1 ConcordiumAllowedImports, tied to
     the implementation query by query): only the listed host functions of module "concordium", with
